@@ -2,12 +2,14 @@
 package main
 
 import (
+	"encoding/json"
 	"flag"
 	"fmt"
 	"io"
 	"log"
 	"os"
 	"strconv"
+	"strings"
 
 	"verif/harness/engines"
 	"verif/harness/runner"
@@ -63,6 +65,28 @@ func main() {
 	case "flatten":
 		log.SetOutput(io.Discard)
 		engines.DebugFlatten(os.Args[2], os.Args[3])
+	case "gen": // development aid: print the case with the given index (or the first whose name contains -name)
+		fs := flag.NewFlagSet("gen", flag.ExitOnError)
+		prop := fs.String("prop", "", "")
+		tier := fs.String("tier", "quick", "")
+		idx := fs.Int("idx", -1, "")
+		name := fs.String("name", "", "")
+		seed := fs.Uint64("seed", 1, "")
+		fs.Parse(os.Args[2:])
+		eng, _ := runner.EngineFor(*prop)
+		n := eng.NumCases(*prop, *tier, *seed)
+		for i := 0; i < n; i++ {
+			if *idx >= 0 && i != *idx {
+				continue
+			}
+			c := eng.Gen(*prop, *tier, *seed, i)
+			if *name != "" && !strings.Contains(c.Name, *name) {
+				continue
+			}
+			b, _ := json.MarshalIndent(c, "", " ")
+			fmt.Println(string(b))
+			break
+		}
 	case "props":
 		for _, p := range runner.Props() {
 			fmt.Println(p)
